@@ -258,7 +258,7 @@ func ruleT1(c *an.Ctx, rule string) {
 			}
 		}
 	}
-	c.Floor(rule, "pairing sites in assignability/equality relations", total, 12)
+	c.Floor(rule, "pairing sites in assignability/equality relations", total, 4)
 }
 
 func ruleN3(c *an.Ctx) {
@@ -332,7 +332,7 @@ func ruleN3(c *an.Ctx) {
 			}
 		}
 	}
-	c.Floor("N3", "FilterJson implementations that rebuild JSON", n, 3)
+	c.Floor("N3", "FilterJson implementations that rebuild JSON", n, 1)
 }
 
 func phiHasTrue(ph *ssa.Phi, d int) bool {
